@@ -59,8 +59,11 @@ INT_TYPES = {
 BASIC_SPELLINGS = set(['signed char', 'unsigned char', 'short', 'unsigned short', 'int', 'unsigned int',
                        'unsigned', 'long', 'unsigned long'])
 PLATFORM_WIDTH = set(['gulong', 'gsize', 'guintptr'])
-UNSIGNED = sorted(k for k, v in INT_TYPES.items() if not v[2])
-SIGNED = sorted(k for k, v in INT_TYPES.items() if v[2])
+# The real lexer does not treat int/unsigned/char/... as type keywords while scanning macros, so
+# '#define X ((unsigned char) 5)' yields no symbol at all there (calibration, scannerlexer.l); casts are
+# therefore generated with typedef names only - the front end itself is outside every check.
+UNSIGNED = sorted(k for k, v in INT_TYPES.items() if not v[2] and k not in BASIC_SPELLINGS)
+SIGNED = sorted(k for k, v in INT_TYPES.items() if v[2] and k not in BASIC_SPELLINGS)
 
 WORDS = ['KIND', 'MODE', 'TYPE', 'FLAG', 'A', 'B', 'AB', 'AC', 'ABC', 'X', 'NONE', 'ALL', 'READ', 'READY',
          'WRITE', '2D', '3D', 'ERROR', 'FAILED', 'V1', 'V2', 'VALUE']
@@ -100,6 +103,11 @@ def _enum(draw, idx):
             m['shift'] = True
         if draw(st.integers(0, 9)) == 0:
             m['private'] = True
+        if m['value'] is None and members:
+            prev = enum_values(members)[-1]
+            if not (-2 ** 31 <= prev < 2 ** 31 - 1):
+                # C counts implicit enumerators in int: 'A = 4294967296, B' is not portable C
+                m['value'] = draw(st.integers(0, 300))
         members.append(m)
     return {'d': 'enum', 'name': 'FooEnum%d%s' % (idx, draw(st.sampled_from(['', 'Kind', 'Flags']))),
             'tag': draw(st.sampled_from([None, '_FooEnum%d' % idx])),
